@@ -75,9 +75,11 @@ def check(ck):
         ck.require(okk, "C20.1", "%s: handler arguments" % where, "(obj, serialize_method, ignore_attribute, ignore, config)",
                    "the handler is called as `%s`" % dump(c)[:80], q.loc(fd, rn))
         gd_ = [g.nodes[d] for d in dom[rn.id] if g.nodes[d].kind == "branch" and hv in dump(g.nodes[d].test)]
-        ck.require(all(dump(b.test) in ("%s is not None" % hv, "%s is None" % hv, hv) for b in gd_), "C20.1",
-                   "%s: handler used whenever registered" % where, "only a None test guards the handler",
-                   "the handler is used only under %s" % [dump(b.test) for b in gd_], q.loc(fd, rn))
+        ck.require(all(dump(b.test) in ("%s is not None" % hv, "%s is None" % hv) for b in gd_), "C20.1",
+                   "%s: handler used whenever registered" % where, "only an identity test with None guards the handler",
+                   "the handler is used only under %s: a registered handler that is not None but false (a callable object with "
+                   "__len__ / __bool__, e.g. an empty callable registry) is skipped and the built-in handling takes over"
+                   % [dump(b.test) for b in gd_], q.loc(fd, rn))
 
     # ---- C20.2 forwarding -------------------------------------------------------------------------------
     rec = q.call_sites(prog, fd, lambda r, c: q.is_func(r, "jsonclass.dump"))
